@@ -26,6 +26,7 @@ type XVCtxInfo struct {
 	Actor     vivid.Actor
 	Mailbox   vivid.Mailbox
 	Ref       vivid.ActorRef
+	Stash     []vivid.Envelop
 }
 
 func XVInfo(c *Context) XVCtxInfo {
@@ -33,6 +34,7 @@ func XVInfo(c *Context) XVCtxInfo {
 		Path: c.ref.GetPath(), HasParent: c.parent != nil, State: atomic.LoadInt32(&c.state), Zombie: c.zombie,
 		StashLen: len(c.stash), StackLen: c.behaviorStack.Len(), Actor: c.actor, Mailbox: c.mailbox, Ref: c.ref,
 	}
+	info.Stash = append(info.Stash, c.stash...)
 	for p := range c.children {
 		info.Children = append(info.Children, p)
 	}
